@@ -18,7 +18,8 @@ def main(pid: str, path: str) -> int:
         cfg, meta, answers = LoopCfg.from_case_text(body)
         script = [tuple(s) for s in meta.get("script", [["call"]])]
         cr = run_case("replay", cfg, script, ReplayOracle(answers), meta.get("wall_seed", 0),
-                      meta.get("deliver_throw", False))
+                      meta.get("deliver_throw", False), reentrant=meta.get("reentrant", False),
+                      nested_answers=meta.get("nested_answers"))
         out = run_driver("loop", cr.text)
         d = parse_driver_output(out)["replay"]
         v = compare(cr, d)
